@@ -92,9 +92,9 @@ def forced_orders():
                 setattr(obj, attr, old)
 
 
-def impl_load_save(b: bytes):
+def impl_load_save(b: bytes, wav_meta=None):
     with forced_orders():
-        return vlib.impl_result(lambda: list(SC.save(SC.load(b))))
+        return vlib.impl_result(lambda: list(SC.save(SC.load(b), wav_meta)))
 
 
 def impl_two_cycles(b: bytes):
